@@ -2,8 +2,9 @@
    Theorems about the executable models Model/GridSample.v (GridSamplingOp: aten grid_sampler contract + the reshape
    wrapper) and Model/SliceProj.v (SliceProjectionOp.projection_matrix, _find_width).  The models are tied to /repo on every
    run by the correspondence families of harness/props/C20.py (vm_compute of the same definitions on seeded cases).
-   Rationals with Qeq (==).  bicubic / reflection and erf profiles: implementation-level oracles only. *)
-From MrVerif Require Import Base.Prelude Model.GridSample Model.SliceProj Proofs.GridSampleProofs Proofs.SliceProjProofs.
+   Rationals with Qeq (==).  reflection padding and erf/Gaussian profiles: implementation-level oracles only. *)
+From MrVerif Require Import Base.Prelude Model.GridSample Model.SliceProj Proofs.GridSampleProofs Proofs.SliceProjProofs
+  Proofs.SliceProjPermProofs Proofs.SliceProjWidthProofs Proofs.SliceProjAxisProofs.
 From Coq Require Import QArith Qround Qabs Morphisms.
 Local Open Scope Q_scope.
 
@@ -110,6 +111,41 @@ Theorem C20_grid_taps_in_range : forall m p ac n x, Forall (fun a => (0 <= fst a
 Proof. exact axis_taps_idx_in_range. Qed.
 Print Assumptions C20_grid_taps_in_range.
 
+(* ----------------------------------------------------------------------- bicubic (2-D; cubic convolution, A = -3/4) *)
+(* the four aten coefficients sum to one for every fractional position; hence the taps of an axis sum to one always under
+   border padding (index clipping) and under zeros padding when the four neighbours are inside *)
+Theorem C20_grid_bicubic_weights : forall t ac n x,
+  cc2 (t + 1) + cc1 t + cc1 (1 - t) + cc2 (2 - t) == 1
+  /\ wsum (axis_taps_bicubic PBorder ac n x) == 1
+  /\ (forallb (fun t => inb n (fst t)) (bicubic_taps1 (unnormalize ac n x)) = true -> wsum (axis_taps_bicubic PZeros ac n x) == 1).
+Proof. intros. split; [apply cubic_coeffs_sum1|]. split; [apply bicubic_border_sum1|apply bicubic_zeros_sum_inside]. Qed.
+Print Assumptions C20_grid_bicubic_weights.
+
+(* bicubic reproduces constants: every grid point under border padding, 4x4 neighbourhood inside under zeros padding *)
+Theorem C20_grid_bicubic_const : forall c ac H W gx gy,
+  grid_sample2_bicubic PBorder ac H W (fun _ _ => c) gx gy == c
+  /\ (forallb (fun t => inb H (fst t)) (bicubic_taps1 (unnormalize ac H gy)) = true ->
+      forallb (fun t => inb W (fst t)) (bicubic_taps1 (unnormalize ac W gx)) = true ->
+      grid_sample2_bicubic PZeros ac H W (fun _ _ => c) gx gy == c).
+Proof. intros. split; [apply bicubic_const_border|apply bicubic_const_zeros]. Qed.
+Print Assumptions C20_grid_bicubic_const.
+
+(* bicubic: on-pixel grid points and the identity grid return the input (both paddings, both conventions, all sizes) *)
+Theorem C20_grid_bicubic_identity : forall p (ac : bool) H W im,
+  (forall gx gy i j, (0 <= i < H)%Z -> (0 <= j < W)%Z ->
+     unnormalize ac H gy == inject_Z i -> unnormalize ac W gx == inject_Z j -> grid_sample2_bicubic p ac H W im gx gy == im i j)
+  /\ (((if ac then 2 else 1) <= H)%Z -> ((if ac then 2 else 1) <= W)%Z -> forall i j, (0 <= i < H)%Z -> (0 <= j < W)%Z ->
+      grid_sample2_bicubic p ac H W im (centre_coord ac W j) (centre_coord ac H i) == im i j).
+Proof.
+  intros. split; [intros; apply grid_sample2_bicubic_on_pixel; assumption|intros; apply identity_grid2_bicubic; assumption].
+Qed.
+Print Assumptions C20_grid_bicubic_identity.
+
+(* the bounded bicubic neighbours are in range: C20_grid_linear and C20_grid_adjoint (stated for arbitrary taps) apply *)
+Theorem C20_grid_bicubic_taps_in_range : forall p ac n x, (1 <= n)%Z -> Forall (fun a => (0 <= fst a < n)%Z) (axis_taps_bicubic p ac n x).
+Proof. exact axis_taps_bicubic_in_range. Qed.
+Print Assumptions C20_grid_bicubic_taps_in_range.
+
 (* ======================================================================= SliceProjectionOp *)
 
 (* all matrix weights are >= 0 for a non-negative profile: any rotation matrix, shift, width, volume shape *)
@@ -145,17 +181,57 @@ Theorem C20_slice_rowsum_inside : forall g r c, (forall d, 0 <= prof g d) ->
 Proof. exact row_sum_inside. Qed.
 Print Assumptions C20_slice_rowsum_inside.
 
-(* identity rotation, ANY shift / shape / width / profile: the row of slice pixel (r,c) is profile-weighted slicing along z
-   through voxel column (pix_y r, pix_x c): weight profile(z_line - z) * norm on the column, 0 elsewhere.
-   _partial: axis-permuting rotations other than the identity are covered by the correspondence and the numpy-style
-   reference oracle only (the statement needs the rotated in-plane position on the lattice; not proved in general). *)
-Theorem C20_slice_identity_is_weighted_slicing_partial : forall g r c, rot g = I3 -> Proper (Qeq ==> Qeq) (prof g) ->
+(* AXIS-ALIGNED ROTATIONS REDUCE TO WEIGHTED SLICING.  Every axis-permuting rotation is a signed permutation matrix
+   sperm_mat a0 a1 a2 b0 b1 b2 (M e_z = +-e_a0 the rotated normal, M e_y = +-e_a1, M e_x = +-e_a2).  For ANY shift (integer,
+   half-integer or other), width, profile and every volume shape whose sizes satisfy ny = n_a1, nx = n_a2 modulo 2 (otherwise the
+   rotated pixel centres lie between voxels and the operator interpolates in the plane, which is not slicing):
+   each entry of the row of slice pixel (r, c) is  profile(signed distance along the normal) * norm  on the voxel line
+   {pt : pt_a1 = lat_y, pt_a2 = lat_x} through the rotated pixel position and 0 on every other voxel. *)
+Theorem C20_slice_axis_aligned_is_weighted_slicing : forall g r c a0 a1 a2 b0 b1 b2,
+  is_perm a0 a1 a2 -> rot g = sperm_mat a0 a1 a2 b0 b1 b2 -> Proper (Qeq ==> Qeq) (prof g) ->
+  Z.even (ny g) = Z.even (comp a1 (dimv g)) -> Z.even (nx g) = Z.even (comp a2 (dimv g)) ->
+  exists a, a == line_n g a0 b0 /\
+  forall pt w, In (pt, w) (row g r c) ->
+    w == (if ((comp a1 pt =? lat_y g a1 b1 r) && (comp a2 pt =? lat_x g a2 b2 c))%Z
+          then prof g (sgn b0 * (a - inject_Z (comp a0 pt))) else 0)
+         * (fraction_in_view g (pixel_rot g r c) / (raw_sum g (pixel_rot g r c) + eps)).
+Proof. exact row_sperm. Qed.
+Print Assumptions C20_slice_axis_aligned_is_weighted_slicing.
+
+(* the parity side conditions hold for every cubic volume under every axis-permuting rotation ... *)
+Theorem C20_slice_axis_aligned_cubic : forall g r c a0 a1 a2 b0 b1 b2,
+  is_perm a0 a1 a2 -> rot g = sperm_mat a0 a1 a2 b0 b1 b2 -> Proper (Qeq ==> Qeq) (prof g) ->
+  nz g = ny g -> ny g = nx g ->
+  exists a, a == line_n g a0 b0 /\
+  forall pt w, In (pt, w) (row g r c) ->
+    w == (if ((comp a1 pt =? lat_y g a1 b1 r) && (comp a2 pt =? lat_x g a2 b2 c))%Z
+          then prof g (sgn b0 * (a - inject_Z (comp a0 pt))) else 0)
+         * (fraction_in_view g (pixel_rot g r c) / (raw_sum g (pixel_rot g r c) + eps)).
+Proof. exact row_sperm_cubic. Qed.
+Print Assumptions C20_slice_axis_aligned_cubic.
+
+(* ... and for every volume shape when the in-plane axes are kept (identity, axis flips, 180 degree rotations) *)
+Theorem C20_slice_axis_keeping_parity : forall g,
+  Z.even (ny g) = Z.even (comp AY (dimv g)) /\ Z.even (nx g) = Z.even (comp AX (dimv g)).
+Proof. exact parity_axis_keeping. Qed.
+Print Assumptions C20_slice_axis_keeping_parity.
+
+(* the identity rotation, all shapes (special case, stated with plain coordinates) *)
+Theorem C20_slice_identity_is_weighted_slicing : forall g r c, rot g = I3 -> Proper (Qeq ==> Qeq) (prof g) ->
   exists a, a == line_z g /\
   forall z y x w, In ((z, y, x), w) (row g r c) ->
     w == (if ((y =? pix_y g r) && (x =? pix_x g c))%Z then prof g (a - inject_Z z) else 0)
          * (fraction_in_view g (pixel_rot g r c) / (raw_sum g (pixel_rot g r c) + eps)).
 Proof. exact row_identity. Qed.
-Print Assumptions C20_slice_identity_is_weighted_slicing_partial.
+Print Assumptions C20_slice_identity_is_weighted_slicing.
+
+(* the signed permutation matrices are the literal 0/+-1 matrices handed to the operator *)
+Example C20_sperm_examples :
+  sperm_mat AZ AY AX true true true = I3
+  /\ sperm_mat AZ AX AY true true false = ((1, 0, 0), (0, 0, -1 # 1), (0, 1, 0))          (* 90 degrees about z *)
+  /\ sperm_mat AY AX AZ true true true = ((0, 0, 1), (1, 0, 0), (0, 1, 0))                (* 120 degrees about (1,1,1) *)
+  /\ sperm_mat AZ AY AX true false false = ((1, 0, 0), (0, -1 # 1, 0), (0, 0, -1 # 1)).    (* 180 degrees about z *)
+Proof. repeat split; reflexivity. Qed.
 
 (* rectangular profile of half-width h: taps are exactly those with |d| <= h (weight 1 before normalisation, hence all equal),
    and the candidate window floor(z_line) - w .. floor(z_line) + w + 1 contains all of them as soon as w >= h *)
@@ -165,22 +241,57 @@ Theorem C20_slice_rect_support : forall h d (pz : Q) (w z : Z),
 Proof. intros. split; [apply rect_spec|apply support_in_window]. Qed.
 Print Assumptions C20_slice_rect_support.
 
-(* identity rotation + rectangular profile of half-width h (h <= width, which _find_width guarantees, see below): EVERY in-volume
-   voxel of the pixel's column with |z_line - z| <= h has an entry in the row and all of them carry the same weight
-   fraction_in_view / (s + 1e-6): the profile is followed over its whole support (width 6 -> 6 equal taps) *)
-Theorem C20_slice_rect_taps_partial : forall g r c h, rot g = I3 -> prof g = rect h -> 0 <= h -> h <= inject_Z (width g) ->
-  forall z, inside g (z, pix_y g r, pix_x g c) = true -> Qabs (line_z g - inject_Z z) <= h ->
-  exists w, In ((z, pix_y g r, pix_x g c), w) (row g r c)
+(* THE WEIGHTS FOLLOW THE PROFILE OVER ITS WHOLE SUPPORT: any axis-permuting rotation + rectangular profile of half-width
+   h <= width: EVERY in-volume voxel of the line with |distance along the normal| <= h has an entry in the row and all of them
+   carry the same weight fraction_in_view / (s + 1e-6) (width 6 -> 6 equal taps) *)
+Theorem C20_slice_rect_taps : forall g r c a0 a1 a2 b0 b1 b2 h,
+  is_perm a0 a1 a2 -> rot g = sperm_mat a0 a1 a2 b0 b1 b2 -> prof g = rect h -> 0 <= h -> h <= inject_Z (width g) ->
+  Z.even (ny g) = Z.even (comp a1 (dimv g)) -> Z.even (nx g) = Z.even (comp a2 (dimv g)) ->
+  forall pt, inside g pt = true -> comp a1 pt = lat_y g a1 b1 r -> comp a2 pt = lat_x g a2 b2 c ->
+  Qabs (line_n g a0 b0 - inject_Z (comp a0 pt)) <= h ->
+  exists w, In (pt, w) (row g r c)
             /\ w == fraction_in_view g (pixel_rot g r c) / (raw_sum g (pixel_rot g r c) + eps).
-Proof. exact rect_identity_taps. Qed.
-Print Assumptions C20_slice_rect_taps_partial.
+Proof. exact rect_sperm_taps. Qed.
+Print Assumptions C20_slice_rect_taps.
 
-(* _find_width (as repaired) of a rectangular profile of half-width h is floor(h) + 1 >= h: checked by evaluation for
-   half-widths 1/2 .. 4 (widths 1 .. 8 voxels) and volume sizes 4 .. 12 (finite domain, hence _partial) *)
-Example C20_find_width_rect_partial :
-  forallb (fun mx => forallb (fun k => (find_width mx (rect (k # 2)) =? Qfloor (k # 2) + 1)%Z)
-                             [1; 2; 3; 4; 5; 6; 7; 8]%Z) [4; 5; 6; 7; 8; 9; 10; 11; 12]%Z = true.
-Proof. vm_compute. reflexivity. Qed.
+(* the same for the operator as __init__ builds it (width := _find_width): the hypothesis h <= width is a theorem *)
+Theorem C20_slice_rect_taps_built : forall n0 n1 n2 a0 a1 a2 b0 b1 b2 sh h r c,
+  let g := mk n0 n1 n2 (sperm_mat a0 a1 a2 b0 b1 b2) sh (rect h) in
+  is_perm a0 a1 a2 -> 0 <= h -> (Qfloor h <= max_shape g)%Z -> (2 * Qfloor h + 1 < 100)%Z ->
+  Z.even (ny g) = Z.even (comp a1 (dimv g)) -> Z.even (nx g) = Z.even (comp a2 (dimv g)) ->
+  forall pt, inside g pt = true -> comp a1 pt = lat_y g a1 b1 r -> comp a2 pt = lat_x g a2 b2 c ->
+  Qabs (line_n g a0 b0 - inject_Z (comp a0 pt)) <= h ->
+  exists w, In (pt, w) (row g r c)
+            /\ w == fraction_in_view g (pixel_rot g r c) / (raw_sum g (pixel_rot g r c) + eps).
+Proof. exact rect_sperm_taps_built. Qed.
+Print Assumptions C20_slice_rect_taps_built.
+
+(* _find_width (as repaired: integer test points -mx..mx, cdf thresholds 1 % / 99 %), ALL sizes mx:
+   a profile that is the indicator of the integers L..R on the test grid (-mx <= L <= R <= mx, fewer than 100 of them, so
+   that one tap is more than 1 % of the total) has width max(|L|, |R|) + 1 *)
+Theorem C20_find_width_indicator : forall p L R mx,
+  (forall t : Z, p (inject_Z t) == if ((L <=? t) && (t <=? R))%Z then 1 else 0) ->
+  (- mx <= L)%Z -> (L <= R)%Z -> (R <= mx)%Z -> (R - L + 1 < 100)%Z ->
+  find_width mx p = (Z.max (Z.abs L) (Z.abs R) + 1)%Z.
+Proof. exact find_width_indicator. Qed.
+Print Assumptions C20_find_width_indicator.
+
+(* symmetric rectangle |d| <= h, every h >= 0 with floor h <= mx and 2 floor h + 1 < 100: width = floor h + 1 (>= h) *)
+Theorem C20_find_width_rect : forall h mx, 0 <= h -> (Qfloor h <= mx)%Z -> (2 * Qfloor h + 1 < 100)%Z ->
+  find_width mx (rect h) = (Qfloor h + 1)%Z /\ h <= inject_Z (find_width mx (rect h)).
+Proof. intros. split; [apply find_width_rect|apply find_width_rect_covers]; assumption. Qed.
+Print Assumptions C20_find_width_rect.
+
+(* asymmetric rectangle lo <= d <= hi: width = max(|ceil lo|, |floor hi|) + 1 (both ends count, not only the right one) *)
+Theorem C20_find_width_arect : forall lo hi mx,
+  (- mx <= Qceiling lo)%Z -> (Qceiling lo <= Qfloor hi)%Z -> (Qfloor hi <= mx)%Z -> (Qfloor hi - Qceiling lo + 1 < 100)%Z ->
+  find_width mx (arect lo hi) = (Z.max (Z.abs (Qceiling lo)) (Z.abs (Qfloor hi)) + 1)%Z.
+Proof. exact find_width_arect. Qed.
+Print Assumptions C20_find_width_arect.
+
+Example C20_find_width_examples :
+  find_width 11 (arect (-7 # 2) (1 # 2)) = 4%Z /\ find_width 11 (arect (-1 # 2) (7 # 2)) = 4%Z /\ find_width 9 (rect 3) = 4%Z.
+Proof. vm_compute. repeat split; reflexivity. Qed.
 
 (* before the repair the test grid had two points and the width was 1 for every profile; now a width-6 rectangle gives 6 taps *)
 Example C20_width6_six_equal_taps :
